@@ -18,7 +18,7 @@ Kind == Params.kind
 Seed == Params.seed
 
 \* base texts: words separated by a single blank or by punctuation + blank
-BaseSeps == <<" ", ", ", " ", ". ", " ", "; ">>
+BaseSeps == <<" ", ", ", " ", ". ", " ", "; ", " -", " ", "- ">>
 BaseTexts(L) ==
   LET W == Words[L]
       singles == [j \in 1..Len(W) |-> W[j]]
@@ -47,7 +47,8 @@ AllWs == AsciiWs \o UniWs
 WsVariants(s, x) ==
   <<s, ReplaceBlank(s, "\t"), ReplaceBlank(s, "\n"), ReplaceBlank(s, "\r\n"), ReplaceBlank(s, UniWs[1]), ReplaceBlank(s, UniWs[12]),
     ReplaceBlank(s, UniWs[18]), ReplaceBlank(s, UniWs[14]), ReplaceBlank(s, "  "), ReplaceBlankCycle(s, AllWs, x),
-    " " \o s \o " ", UniWs[1] \o ReplaceBlank(s, UniWs[16]) \o "\n", ReplaceBlank(s, Pick(AllWs, x) \o Pick(AllWs, Lcg(x)))>>
+    " " \o s \o " ", UniWs[1] \o ReplaceBlank(s, UniWs[16]) \o "\n", ReplaceBlank(s, Pick(AllWs, x) \o Pick(AllWs, Lcg(x))),
+    ReplaceBlank(s, "\n\n"), ReplaceBlank(s, "\n \n"), ReplaceBlank(s, "\r\n\r\n"), ReplaceBlank(s, " \t ")>>
 
 \* ---- C18: the English o ---------------------------------------------------
 \* token lists: words and separators alternate; o18 alphabet has no "zero" so that the twin can be mapped back
@@ -88,7 +89,9 @@ AsbCases(L) == LET P == Parts(L) S == StrongSep[L] n == Len(P) IN
           b == IF fam THEN F[((Lcg(x) \div 16) % Len(F)) + 1] ELSE P[((Lcg(x) \div 16) % n) + 1]
           s == S[(j % Len(S)) + 1]
       IN <<a \o s \o b, a, b, s>>]
-   \o LET CW == CoreWords[L] \o SubSeq(AmbigParts[L], 1, IF Len(AmbigParts[L]) < 4 THEN Len(AmbigParts[L]) ELSE 4)  m == Len(CW) IN
+   \o LET DecP == <<CoreWords[L][2] \o " " \o SepWord[L] \o " " \o ZeroWord[L], CoreWords[L][1] \o " " \o SepWord[L] \o " " \o CoreWords[L][2],
+                    CoreWords[L][2] \o " " \o SepWord[L], CoreWords[L][6] \o " " \o SepWord[L] \o " " \o CoreWords[L][1]>>      \* decimals, a dangling separator
+          CW == CoreWords[L] \o DecP \o SubSeq(AmbigParts[L], 1, IF Len(AmbigParts[L]) < 4 THEN Len(AmbigParts[L]) ELSE 4)  m == Len(CW) IN
       [j \in 1..(m * m * Len(S)) |-> LET a == CW[(((j - 1) \div Len(S)) \div m) + 1]  b == CW[(((j - 1) \div Len(S)) % m) + 1]
                                          s == S[((j - 1) % Len(S)) + 1] IN <<a \o s \o b, a, b, s>>]
 
